@@ -33,12 +33,12 @@ struct Model {
 
 char content(size_t step, int64_t rel) { uint64_t h = (step + 1) * 0x9E3779B97F4A7C15ULL ^ (uint64_t)rel * 0xBF58476D1CE4E5B9ULL; h ^= h >> 29; return (char)(h * 0x94D049BB133111EBULL >> 56); }
 
-// history: "B <base> | ops": W rel len | F rel | C rel len | H rel len | N rel | P rel | Q | Z
+// history: "B <base> <pools> | ops" (pools 0: freed nodes return to malloc so that ASan sees stale accesses; slow): W rel len | F rel | C rel len | H rel len | N rel | P rel | Q | Z
 struct Op { char code; int64_t rel, len; };
-bool decode(const std::string &w, int64_t &base, std::vector<Op> &ops) {
+bool decode(const std::string &w, int64_t &base, int &pools, std::vector<Op> &ops) {
     std::istringstream is(w);
     std::string t; long long b;
-    if (!(is >> t) || t != "B" || !(is >> b) || b < 0 || b > (1LL << 61)) return false;
+    if (!(is >> t) || t != "B" || !(is >> b >> pools) || b < 0 || b > (1LL << 61)) return false;
     base = b;
     while (is >> t) {
         if (t.size() != 1) return false;
@@ -58,9 +58,10 @@ bool decode(const std::string &w, int64_t &base, std::vector<Op> &ops) {
 }
 
 void run(Ctx &ctx, const std::string &w) {
-    int64_t base;
+    int64_t base; int pools = 1;
     std::vector<Op> ops;
-    if (!decode(w, base, ops)) return;
+    if (!decode(w, base, pools, ops)) return;
+    MemPools::GetInstance().setIdleLimit(pools ? (2 << 20) : 0);
     Model m;
     long nW = 0, nF = 0, nC = 0, nH = 0, skipped = 0, softCopies = 0, greyH = 0, partial = 0, freedNodes = 0, multiPage = 0, sparse = 0;
     bool dead = false;
@@ -160,7 +161,7 @@ void run(Ctx &ctx, const std::string &w) {
     }
     ctx.ubsanGate({"stmem.cc", "mem_node.cc", "splay.h"});
     auto b = [](long v) { return v == 0 ? "0" : v < 4 ? "1" : v < 16 ? "2" : "3"; };
-    ctx.feature(std::string("b") + (base == 0 ? "0" : base < 4096 ? "s" : base < (1LL << 31) ? "m" : base < (1LL << 33) ? "4G" : "L") + " w" + b(nW) + " f" + b(nF) + " n" + b(freedNodes) + " c" + b(nC) + " p" + b(partial) + " h" + b(nH) + " g" + b(greyH) + " s" + b(sparse) + " M" + b(multiPage), nW + nF + nC + nH > 0);
+    ctx.feature(std::string("b") + (base == 0 ? "0" : base < 4096 ? "s" : base < (1LL << 31) ? "m" : base < (1LL << 33) ? "4G" : "L") + " w" + b(nW) + " f" + b(nF) + " n" + b(freedNodes) + " c" + b(nC) + " p" + b(partial) + " h" + b(nH) + " g" + b(greyH) + " s" + b(sparse) + " M" + b(multiPage) + (pools ? "" : " nopool"), nW + nF + nC + nH > 0);
     ctx.count("writes", nW); ctx.count("frees", nF); ctx.count("copies", nC); ctx.count("contiguity_queries", nH);
     ctx.count("ops_skipped_by_caller_contract", skipped); ctx.count("copies_into_released_bytes_soft", softCopies);
     ctx.count("contiguity_over_released_bytes_not_judged", greyH); ctx.count("nodes_freed", freedNodes); ctx.count("sparse_writes", sparse);
@@ -170,7 +171,7 @@ void run(Ctx &ctx, const std::string &w) {
 std::string gen(Rng &r) {
     static const long long bases[] = {0, 0, 0, 1, 4095, 4096, 100000, (1LL << 31) - 5000, (1LL << 32) - 4096 - 7, (1LL << 40) + 3};
     const long long base = bases[r.below(sizeof bases / sizeof *bases)];
-    std::string s = "B " + std::to_string(base);
+    std::string s = "B " + std::to_string(base) + (r.chance(1, 5) ? " 0" : " 1");
     // generator-side approximation of the model: 0 absent, 1 present, 2 released (maybe kept)
     uint8_t *st = GenBuf; memset(st, 0, Span);
     const int nops = 4 + (int)r.below(r.chance(1, 4) ? 120 : 40);
@@ -223,7 +224,6 @@ std::string gen(Rng &r) {
 }
 
 int drive(Ctx &ctx) {
-    MemPools::GetInstance().setIdleLimit(0); // freed nodes go back to malloc: ASan sees stale node accesses
     return vh::Loop(ctx, gen, run);
 }
 
